@@ -24,7 +24,7 @@ SUITE_MODULES = {
     "typestate": "StreamTSC", "request": "SessionC",
     "session": "E2C", "control": "E2C", "control_cut": "E2C", "streams": "E2C", "foreign": "E2C",
     "unknown_uni": "E2C", "stall": "E2C", "pace": "E2C", "emit": "E2C", "signals": "E2C", "wdgram": "E2C", "client": "E2C", "pair": "E2C", "requests": "E2C", "credit": "E2C",
-    "trace": "E3C", "cell": "E3C", "backlog": "E3C", "decide": "E3C",
+    "trace": "E3C", "cell": "E3C", "backlog": "E3C", "decide": "E3C", "early": "E3C",
     "pin": "E4C", "digest": "E4C", "pem": "E4C", "identity": "E4C", "bind": "E4C", "idle": "E4C", "alpn": "E4C", "reload": "E4C",
     "wire": "WireC", "settings": "WireC", "dgram": "WireC", "capsule": "WireC", "ids": "WireC", "status": "WireC",
 }
@@ -231,7 +231,7 @@ PROPS["C07"] = {
 PROPS["C08"] = {
     "title": "Every peer-opened stream is delivered exactly once at any acceptance pace",
     "corr_modules": ["E2C", "E3C"],
-    "suites": [("e2", "pace", ["debug"]), ("e2", "streams", ["debug"]), ("e2", "pair", ["debug"]), ("e2", "trace", ["debug"])],
+    "suites": [("e2", "pace", ["debug"]), ("e2", "streams", ["debug"]), ("e2", "pair", ["debug"]), ("e2", "trace", ["debug"]), ("e2", "early", ["debug"])],
     "technique": PROOF_TECH,
     "level_text": "theorem (induction over arbitrary label sequences = all interleavings, all capacities): the opened streams are partitioned among accept queue, tasks, channel, delivered and ended -- none lost, duplicated or invented; cancelling an accept changes nothing; tie: 10-40 (thorough 120) streams with slow, multi-task and cancelling acceptors against the running driver",
     "level_note": CODEC_NOTE + WIRE_NOTE + "; tokio's documented cancel safety of mpsc::Receiver::recv and Mutex::lock is trusted",
